@@ -646,6 +646,10 @@ class Interp:
                                for f in k.fields]) if k.fields else z3.BoolVal(False)
             raise Unsupported('non-str key in record')
         if isinstance(k, K.Seq):
+            nc = simp(K.seq_len(coll))
+            if z3.is_int_value(nc) and nc.as_long() <= 24:
+                return z3.Or(*[self.eq(K.seq_get(coll, z3.IntVal(j)), item) for j in range(nc.as_long())]) \
+                    if nc.as_long() else z3.BoolVal(False)
             i = self.p.fresh('in!i', z3.IntSort())
             return z3.Exists([i], z3.And(0 <= i, i < K.seq_len(coll),
                                          self.eq(K.seq_get(coll, i), item)))
@@ -1044,7 +1048,7 @@ BUILTINS = {'len', 'isinstance', 'list', 'tuple', 'set', 'dict', 'sorted', 'enum
             'reversed', 'all', 'any', 'super', 'OrderedDict', 'iter', 'type', 'min', 'max', 'issubclass'}
 SPEC_BUILTINS = {'old', 'implies', 'iff', 'forall', 'exists', 'result', 'ite', 'dtype_is',
                  'raised', 'fresh_ref', 'range', 'live', 'key_at', 'log_len', 'distinct',
-                 'unchanged', 'const_seq', 'allocated', 'exc_attr', 'has_exc_attr', '_', 'text_type', 'fun', 'index_in', 'last_sorted', 'use_lemma', 'to_str', 'sel', 'is_none', 'some', 'truthy'}
+                 'unchanged', 'const_seq', 'allocated', 'exc_attr', 'has_exc_attr', '_', 'text_type', 'fun', 'index_in', 'last_sorted', 'use_lemma', 'src_index', 'dst_index', 'to_str', 'sel', 'is_none', 'some', 'truthy'}
 
 MODULES = {'six', 'logging', 'logger', 'models', 'collections'}
 MODULE_BUILTINS = {'dict.__eq__': 'dict_eq', 'six.moves.range': 'range', 'six.iteritems': 'iteritems', 'six.iterkeys': 'iterkeys',
